@@ -28,6 +28,10 @@ fn arg_variants() -> Vec<Vec<u8>> {
         // arguments are kept byte for byte: numbers are not re-spelt, names not normalised
         b" 644".to_vec(), b" 0".to_vec(), b" +644".to_vec(), b" 00644".to_vec(), b" 7777".to_vec(), b" 10000".to_vec(),
         b" ./x//y/".to_vec(), b" A b  c ".to_vec(),
+        // truncated multi-byte sequences are not UTF-8, however many bytes of them are there
+        b" pkg-1.0\xf0\x9f\x92".to_vec(), b" x\xe2\x82".to_vec(), b" \xc3".to_vec(), b" \xf0\x9f".to_vec(), b" \xed\xa0\x80".to_vec(), b" a\xf0\x9f\x92b".to_vec(),
+        // an argument is an argument, whatever shell idiom it spells
+        b" rmdir %D/share/foo 2>/dev/null || true".to_vec(), b" /bin/rmdir %D/share/foo".to_vec(), b" rmdir %D/x".to_vec(),
         // dependency / conflict arguments are TEXT here: whether they compile as patterns is not
         // the packing list's business
         b" png-[0-9".to_vec(), b" {foo,bar-[0-9]*".to_vec(), b" perl>=5.0<5.30<6".to_vec(), b" lib**".to_vec(), b" foo}b{ar>1.0".to_vec(),
@@ -142,7 +146,10 @@ fn gen_c14(tier: &str, rng: &mut Rng, emit: &mut dyn FnMut(Op)) {
 
 fn gen_c15(tier: &str, rng: &mut Rng, emit: &mut dyn FnMut(Op)) {
     let thorough = tier == "thorough";
-    let kinds: [&[u8]; 64] = [
+    let kinds: [&[u8]; 72] = [
+        // the same directory in other spellings; dependencies / conflicts that match the own @name
+        b"@cwd /usr//pkg", b"@cwd /usr/pkg/", b"@cwd /usr/pkg/.", b"@cwd /.", b"@cwd /opt//",
+        b"@pkgcfl foo-[0-9]*", b"@pkgdep foo>=1", b"@pkgcfl {foo,bar}-1.0",
         // directories that contain one another; a file listed twice
         b"@dirrm share", b"@dirrm share/y/z", b"@pkgdir share", b"@dirrm /", b"x",
         // "first of theirs", returned as stored: trailing blanks are part of the argument
@@ -231,6 +238,17 @@ pub fn gen(id: &str, tier: &str, rng: &mut Rng, emit: &mut dyn FnMut(Op)) {
                     }
                 }
                 cur = next;
+            }
+            // SIZE: long runs of lines of one kind (blank, blank-ish, comments, files) — whatever a
+            // parser does per skipped or kept line, it does not do it on the stack
+            for (line, count) in [(&b""[..], 200000usize), (b" \t", 100000), (b"\r", 100000), (b"@comment x", 3000), (b"bin/x", 3000)] {
+                let mut d: Vec<u8> = b"@name foo-1.0\n".to_vec();
+                for _ in 0..count {
+                    d.extend(line);
+                    d.push(b'\n');
+                }
+                d.extend(b"bin/last\n");
+                emit(Op::new("plist.parse", &[&d]));
             }
         }
         "C14" => with_oracle_fuzz(tier, rng, emit, &gen_c14),
